@@ -171,3 +171,142 @@ func c13atomicSnapshot(c *Ctx) {
 	}
 	c.R.Check(len(bad) == 0 && sources >= 1, rule, discovInt+".(*cluster).load#one-read", "the snapshot handed to the diff and the revision the watch resumes from are taken from one response: nothing consumes a response inside the loop that fetches them", posOf(c, f), fmt.Sprintf("%d response sources; %s", sources, strings.Join(bad, "; ")), bad, sources)
 }
+
+// c13waitHolding (R11, round 5): no function of the discovery registry waits for its watch goroutines while holding a
+// lock those goroutines take. For every function of the package that calls RoutineGroup.Wait / WaitGroup.Wait on a
+// path where a mutex field is held: if a function reachable (static calls inside the package) from a closure handed to
+// the same kind of group (`….Run(func)`, `go`) locks a mutex field of the same name and receiver type, the wait can
+// never finish once such a goroutine is about to take the lock — every later Monitor/Unmonitor/Subscribe on the
+// cluster blocks behind it.
+func c13waitHolding(c *Ctx) {
+	rule := "C13.R11"
+	// (1) which mutex fields are taken by code running on the package's own goroutines
+	starts := map[*ssa.Function]bool{}
+	for _, f := range c.P.AllFuncs(discovInt) {
+		for _, b := range f.Blocks {
+			for _, ins := range b.Instrs {
+				var fnv ssa.Value
+				switch x := ins.(type) {
+				case *ssa.Go:
+					fnv = x.Call.Value
+				case ssa.CallInstruction:
+					if sc := x.Common().StaticCallee(); sc != nil && (sc.Name() == "Run" || sc.Name() == "RunSafe") && strings.Contains(calleeName(x.Common()), "RoutineGroup") {
+						if len(x.Common().Args) >= 2 {
+							fnv = x.Common().Args[1]
+						}
+					}
+				}
+				if t := boundTarget(fnv); t != nil {
+					starts[t] = true
+				}
+			}
+		}
+	}
+	reach := map[*ssa.Function]bool{}
+	var work []*ssa.Function
+	for f := range starts {
+		work = append(work, f)
+	}
+	for len(work) > 0 {
+		f := work[len(work)-1]
+		work = work[:len(work)-1]
+		if reach[f] || f.Blocks == nil {
+			continue
+		}
+		reach[f] = true
+		for _, a := range f.AnonFuncs {
+			work = append(work, a)
+		}
+		for _, b := range f.Blocks {
+			for _, ins := range b.Instrs {
+				if call, ok := ins.(ssa.CallInstruction); ok {
+					if sc := call.Common().StaticCallee(); sc != nil && sc.Pkg == f.Pkg {
+						work = append(work, sc)
+					}
+				}
+			}
+		}
+	}
+	lockField := func(cc *ssa.CallCommon) string {
+		sc := cc.StaticCallee()
+		if sc == nil || sc.Pkg == nil || sc.Pkg.Pkg.Path() != "sync" || len(cc.Args) == 0 {
+			return ""
+		}
+		if sc.Name() != "Lock" && sc.Name() != "RLock" {
+			return ""
+		}
+		if fa, ok := cc.Args[0].(*ssa.FieldAddr); ok {
+			return typeString(fa.X.Type()) + "." + fieldNameOf(fa)
+		}
+		return ""
+	}
+	takenByGoroutines := map[string]string{}
+	for f := range reach {
+		for _, b := range f.Blocks {
+			for _, ins := range b.Instrs {
+				if call, ok := ins.(ssa.CallInstruction); ok {
+					if lf := lockField(call.Common()); lf != "" {
+						if _, dup := takenByGoroutines[lf]; !dup {
+							takenByGoroutines[lf] = funcDisplay(f)
+						}
+					}
+				}
+			}
+		}
+	}
+	// (2) functions that wait for a group while holding such a lock
+	n := 0
+	for _, f := range c.P.AllFuncs(discovInt) {
+		if f.Parent() != nil {
+			continue
+		}
+		waits := callsInBody(f, func(cc *ssa.CallCommon) bool {
+			nm := calleeName(cc)
+			return strings.HasSuffix(nm, "RoutineGroup).Wait") || nm == "(*sync.WaitGroup).Wait"
+		})
+		if !waits {
+			continue
+		}
+		n++
+		ps := c.paths(rule, f, px.Config{MaxVisits: 2})
+		c.forall(rule, funcDisplay(f), "the wait for the package's goroutines happens without holding a mutex that code running on those goroutines takes", f, ps, func(p *px.Path) (bool, string) {
+			held := map[string]int{}
+			for i := range p.Events {
+				e := &p.Events[i]
+				if e.Kind != px.EvCall || e.Call == nil || e.Call.Obj() == nil {
+					continue
+				}
+				o := e.Call.Obj()
+				if o.Pkg() != nil && o.Pkg().Path() == "sync" && e.Call.Recv != nil && e.Call.Recv.Kind == px.KFieldAddr {
+					key := typeString(e.Call.Recv.X.Typ) + "." + fieldNameOfSym(e.Call.Recv)
+					switch o.Name() {
+					case "Lock", "RLock":
+						held[key]++
+					case "Unlock", "RUnlock":
+						held[key]--
+					}
+				}
+				if o.Name() == "Wait" && (strings.HasSuffix(shortName(e.Call), "RoutineGroup).Wait") || shortName(e.Call) == "sync.(*WaitGroup).Wait") {
+					for k, cnt := range held {
+						if cnt > 0 {
+							if who, ok := takenByGoroutines[k]; ok {
+								return false, fmt.Sprintf("waits for the goroutines of a routine group while holding %s, which %s — running on such a goroutine — locks: a goroutine that is about to take the lock (a watcher applying an event, a reload after compaction) never finishes, the wait never returns, and the lock is never released", k, who)
+							}
+						}
+					}
+				}
+			}
+			return true, ""
+		})
+	}
+	if n == 0 {
+		c.R.Undecided(rule, discovInt+"#waits", "the functions that wait for the watch goroutines are recognised", "none found")
+	}
+}
+
+func fieldNameOfSym(s *px.Sym) string {
+	if v := s.FieldVar(); v != nil {
+		return v.Name()
+	}
+	return "?"
+}
